@@ -1093,15 +1093,25 @@ class RFBClient(Protocol):  # type: ignore[misc]
         data = self._zlib_stream.decompress(block)
         it = iter(data)
 
-        def cpixel(i: Iterator[int]) -> bytearray:
-            return bytearray(
-                (
-                    next(i),
-                    next(i),
-                    next(i),
-                    0xFF,
+        if self.pixel_format.bpp == 32 and self.pixel_format.depth <= 24:
+            # CPIXEL: the three bytes holding the colour, the fourth is padding
+
+            def cpixel(i: Iterator[int]) -> bytearray:
+                return bytearray(
+                    (
+                        next(i),
+                        next(i),
+                        next(i),
+                        0xFF,
+                    )
                 )
-            )
+
+        else:
+            # CPIXEL is a whole pixel
+            bypp = self.bypp
+
+            def cpixel(i: Iterator[int]) -> bytearray:
+                return bytearray([next(i) for _ in range(bypp)])
 
         for subencoding in it:
             # calc tile size
